@@ -39,7 +39,7 @@ GInit == Init /\ hist = <<>>
 Warm == nops >= 3 \/ nfaults > 0 \/ nrestarts > 0 \/ st # "open"
 Losable == \E f \in Fids : durable[f] < Len(dir[f])
 
-GNext ==
+GCore ==
   \/ \E k \in Keys, v \in Vals : PutBegin(k, v) /\ L("put", k, v)
   \/ \E k \in Keys : DelBegin(k) /\ L("del", k, 0)
   \/ SyncCall /\ L("sync", 0, 0)
@@ -56,10 +56,11 @@ GNext ==
   \/ Warm /\ CloseCall /\ L("close", 0, 0)
   \/ Warm /\ Crash /\ L("crash", 0, 0)
   \/ Losable /\ PowerLoss /\ hist' = Append(hist, CutLabel)
-  \/ OpenLock /\ L("openlock", 0, 0)
   \/ AdoptStep /\ L("adoptstep", 0, 0)
   \/ OpenLoad /\ L("openload", 0, 0)
   \/ Retry /\ L("retry", 0, 0)
+
+GNext == (GCore /\ UNCHANGED cfg) \/ \E nl \in Limits : OpenLock(nl) /\ L("openlock", nl, 0)
 
 GSpec == GInit /\ [][GNext]_gvars
 
